@@ -20,6 +20,10 @@ WORDS = (
 
 ABBREV = ["e.g.", "i.e.", "Dr.", "etc.", "vs.", "U.S."]
 
+# multi-byte UTF-8 (2, 3 and 4 byte sequences, combining mark, CJK next to Latin): a reader that
+# splits input at arbitrary byte positions must reassemble these
+NON_ASCII = ["na\u00efve", "caf\u00e9", "\u65e5\u672c\u8a9e", "\u2014", "\U0001f600", "e\u0301", "\u00dcber", "\u4e2d\u6587text", "\u201cquoted\u201d", "\u2026"]
+
 HAZARD_WORDS = ["-", "+", "1.", "2)", "#", ">", "---", "===", "```", "|", "*", "~~~"]
 
 
@@ -66,6 +70,8 @@ def sentence(rng: random.Random, lo: int = 4, hi: int = 16) -> str:
         ws[rng.randrange(n)] = "&amp; &copy"
     elif r < 0.81:
         ws[rng.randrange(n)] = "<span>" + _word(rng) + "</span>"
+    elif r < 0.90:
+        ws[rng.randrange(n)] = rng.choice(NON_ASCII)
     end = rng.choice([".", ".", ".", "?", "!", ":"])
     return " ".join(ws) + end
 
